@@ -185,7 +185,11 @@ def run_case(case):
     worst = -math.inf
     for x in pts:
         keep = list(x)
-        v = obj.f(x)
+        try:
+            v = obj.f(x)
+        except Exception as e:  # a point of the documented (closed) domain has no value at all
+            V("evaluation_raises_on_a_point_of_the_documented_domain", x=keep, error=repr(e)[:200])
+            return {"viol": viol, "obs": dict(obs), "nontrivial": obs.get("samples_checked", 0) >= 1000}
         obs["samples_checked"] += 1
         if x != keep:
             V("input_point_modified", before=keep, after=x)
@@ -204,7 +208,11 @@ def run_case(case):
     obs["max_regret_free_value_gap"] = 0
     # maximisers
     for m in maximisers:
-        v = obj.f(list(m))
+        try:
+            v = obj.f(list(m))
+        except Exception as e:
+            V("evaluation_raises_on_a_point_of_the_documented_domain", x=m, error=repr(e)[:200])
+            continue
         obs["maximisers_checked"] += 1
         tol = 1e-6 if ("Himmelblau" in name and m != HIMMEL_MAX[0] and list(m) != [3.0, 2.0]) else 1e-9
         if abs(float(v) - float(fmax)) > tol:
